@@ -1578,6 +1578,12 @@ def metacall():
                 # System Predicate string
                 return Predicate.System(arg)
 
+        if cls is Predicate and spec:
+            # System predicates are singletons, also when referenced by spec.
+            ref = spec[0] if len(spec) == 1 else spec
+            if isinstance(ref, tuple) and ref and isinstance(ref[0], int) and ref[0] < 0:
+                return Predicate.System(tuple(ref))
+
         # Invoked class name.
         clsname = cls.__name__
         
